@@ -11,6 +11,7 @@ From UV.Gen Require Import Tables.
 From UV.Py Require Import PyStr.
 From UV.Vers Require Import Model.
 From UV.Schemes Require Import Common Generic LegacyOpenssl Gentoo GentooProofs Debian DebianProofs Semver SemverProofs Gem GemProofs Rpm RpmProofs Arch ArchProofs Openssl.
+From UV.Schemes Require Import Pypi Maven.
 Import ListNotations.
 
 (* one of <, ==, > exactly; <= is < or ==; >= is > or ==; != is not ==  -- for any operators derived from one comparison *)
@@ -56,6 +57,10 @@ Theorem C02_openssl : forall a b, ossl_ok a = true -> ossl_ok b = true ->
   ossl_ops a b = ops_of (ossl_cmp a b) /\ ops_agree (ossl_ops a b) = true.
 Proof. intros a b Ha Hb. rewrite (ossl_ops_spec a b Ha Hb). split; [reflexivity|apply ops_of_agree]. Qed.
 
+Theorem C02_pypi_and_maven : forall a b c d,
+  ops_agree (pypi_ops a b) = true /\ ops_agree (maven_ops c d) = true.
+Proof. intros a b c d. split; [apply pypi_ops_spec|apply maven_ops_spec]. Qed.
+
 Print Assumptions C02_operators_of_a_comparison_agree.
 Print Assumptions C02_single_comparator_constraints.
 Print Assumptions C02_generic.
@@ -67,3 +72,4 @@ Print Assumptions C02_gem.
 Print Assumptions C02_rpm.
 Print Assumptions C02_alpm.
 Print Assumptions C02_openssl.
+Print Assumptions C02_pypi_and_maven.
